@@ -241,8 +241,7 @@ func vSameBytes(a, b []byte) bool {
 	return r
 }
 
-// vRoundTrip: encode == independent serializer; decode(encode) == id; any
-// per-element byte order decodes to the same geometry.
+// vRoundTrip: encode == independent serializer; decode(encode) == id.
 func vRoundTrip(g geom.Geom) {
 	le := vChoose(2) == 1
 	var order binary.ByteOrder = XDR
@@ -257,8 +256,13 @@ func vRoundTrip(g geom.Geom) {
 	g2, err := Decode(buf)
 	vAssert(err == nil, "decode-succeeds")
 	vAssert(vSameGeom(g, g2), "decode-encode-identity")
+}
+
+// vMixed: an encoding in which every nested element carries its own,
+// independently chosen byte order decodes to the same geometry.
+func vMixed(g geom.Geom) {
 	mixed := &vSer{mixed: true}
-	mixed.geom(le, g)
+	mixed.geom(true, g)
 	g3, err := Decode(mixed.b)
 	vAssert(err == nil, "mixed-order-decode-succeeds")
 	vAssert(vSameGeom(g, g3), "mixed-order-decode-identity")
@@ -266,18 +270,38 @@ func vRoundTrip(g geom.Geom) {
 
 func VH_C05_point()      { vRoundTrip(vGeomOfKind(0, 0, 0, 0)); vReach("end") }
 func VH_C05_linestring() { vRoundTrip(vGeomOfKind(1, 0, 0, vBound(2, 3))); vReach("end") }
-func VH_C05_polygon()    { vRoundTrip(vGeomOfKind(2, 0, vBound(2, 2), vBound(2, 2))); vReach("end") }
+func VH_C05_polygon()    { vRoundTrip(vGeomOfKind(2, 0, vBound(2, 3), vBound(2, 2))); vReach("end") }
 func VH_C05_multipoint() { vRoundTrip(vGeomOfKind(3, 0, 0, vBound(2, 3))); vReach("end") }
 func VH_C05_multilinestring() {
-	vRoundTrip(vGeomOfKind(4, 0, vBound(2, 2), vBound(2, 2)))
+	vRoundTrip(vGeomOfKind(4, 0, vBound(2, 3), vBound(2, 2)))
 	vReach("end")
 }
 func VH_C05_multipolygon() {
-	vRoundTrip(vGeomOfKind(5, 0, vBound(1, 2), vBound(1, 2)))
+	vRoundTrip(vGeomOfKind(5, 0, vBound(2, 2), vBound(1, 2)))
 	vReach("end")
 }
 func VH_C05_collection() {
-	vRoundTrip(vGeomOfKind(6, vBound(2, 2), vBound(2, 2), 1))
+	vRoundTrip(vGeomOfKind(6, 2, 2, 1))
+	vReach("end")
+}
+func VH_C05_collection_depth3() {
+	// collection of a collection of a collection (thorough)
+	inner := geom.GeometryCollection{vGeomOfKind(vChoose(6), 0, 1, 1)}
+	mid := geom.GeometryCollection{inner, vGeomOfKind(vChoose(6), 0, 1, 1)}
+	vRoundTrip(geom.GeometryCollection{mid})
+	vReach("end")
+}
+
+func VH_C05_mixed_flat() {
+	vMixed(vGeomOfKind(vChoose(3), 0, 2, 2))
+	vReach("end")
+}
+func VH_C05_mixed_multi() {
+	vMixed(vGeomOfKind(3+vChoose(3), 0, 2, 1))
+	vReach("end")
+}
+func VH_C05_mixed_collection() {
+	vMixed(vGeomOfKind(6, 2, 2, 1))
 	vReach("end")
 }
 
